@@ -2992,9 +2992,9 @@ fn corrupt_archive_structure(data: &mut [u8], rng: &mut Rng) -> Option<String> {
         pos += size;
     }
     let choose_value = |rng: &mut Rng, old: u64| -> u64 {
-        match rng.below(8) {
-            0 => old ^ 1,
-            1 => old.wrapping_add(1),
+        match rng.below(10) {
+            0 | 8 => old ^ 1,
+            1 | 9 => old.wrapping_add(1 + rng.below(32)),
             2 => old.wrapping_sub(1),
             3 => old ^ (1 << rng.below(16)),
             4 => old.wrapping_add(256),
@@ -3006,11 +3006,12 @@ fn corrupt_archive_structure(data: &mut [u8], rng: &mut Rng) -> Option<String> {
     if !headers.is_empty() && rng.chance(70, 100) {
         // Prefer empty objects: they are what the next write will use.
         let empties: Vec<_> = headers.iter().filter(|h| h.1).collect();
-        let (pos, empty) = if !empties.is_empty() && rng.chance(60, 100) {
+        let (pos, empty) = if !empties.is_empty() && rng.chance(75, 100) {
             **rng.pick(&empties)
         } else { *rng.pick(&headers) };
         let (name, off, width) = *rng.pick(&[
-            ("size", 0usize, 8usize), ("size", 0, 8), ("next", 8, 8),
+            ("size", 0usize, 8usize), ("size", 0, 8), ("size", 0, 8),
+            ("next", 8, 8),
             ("empty flag", 16, 1), ("name length", 17, 8),
             ("data length", 25, 8),
         ]);
@@ -3169,8 +3170,16 @@ impl Sim {
             if files.is_empty() { return }
             let n_files = 1 + rng.usize(3);
             let mut what = Vec::new();
+            let archives: Vec<PathBuf> = files.iter().filter(|p| {
+                p.strip_prefix(&cache).map(|p| p.starts_with("rrdp"))
+                    .unwrap_or(false)
+            }).cloned().collect();
             for _ in 0..n_files {
-                let path = rng.pick(&files).clone();
+                // There are many more stored points than archives: give the
+                // archives their share.
+                let path = if !archives.is_empty() && rng.chance(40, 100) {
+                    rng.pick(&archives).clone()
+                } else { rng.pick(&files).clone() };
                 let mut data = std::fs::read(&path).unwrap_or_default();
                 let rel = path.strip_prefix(&cache).unwrap().display().to_string();
                 let mut kind = rng.below(9);
